@@ -158,6 +158,9 @@ def report_fails(rep, fails, replay, limit_per_sig=2):
         per_sig[key] = per_sig.get(key, 0) + 1
         if per_sig[key] > limit_per_sig:
             rep.add('further_cases_same_signature')
+            e = rep.match_known(f)
+            if e is not None:
+                rep.known_hits[e['id']] = rep.known_hits.get(e['id'], 0) + 1
             continue
         again = replay(f)
         if not again:
